@@ -109,6 +109,8 @@ pub fn cases(tier: &str, seed: u64) -> Vec<Case> {
     let thorough = tier == "thorough";
     let mut v: Vec<Case> = Vec::new();
     let mut g = Gen::new(seed);
+    // messages that are also parsed on a small stack at the end (see `stack_probe`)
+    let mut deep: Vec<Vec<u8>> = vec![];
     // header-peek functions on every short buffer length
     for len in 0..=13usize {
         for fill in 0..4 {
@@ -267,6 +269,7 @@ pub fn cases(tier: &str, seed: u64) -> Vec<Case> {
             b.extend_from_slice(&[0, 1, 0, 1, 0, 0, 0, 0, 0, 0]);
             prev = if at <= 0x3FFF { Some(at) } else { prev };
         }
+        deep.push(b.clone());
         v.push(parse_case(&b, "pointer-chain"));
     }
     // the worst case for time: a pure pointer chain (inside the opaque RDATA of a first record) and as
@@ -283,6 +286,7 @@ pub fn cases(tier: &str, seed: u64) -> Vec<Case> {
         while b.len() + 12 <= total { b.push(0xC0 | (prev >> 8) as u8); b.push(prev as u8); b.extend_from_slice(&[0, 1, 0, 1, 0, 0, 0, 0, 0, 0]); n += 1; }
         b[6..8].copy_from_slice(&n.to_be_bytes());
         // the list-based Lean model would need hours on the big ones: implementation and budgets only
+        deep.push(b.clone());
         let mut c = parse_case(&b, "pure-pointer-chain");
         if total > 4000 { c.proj = Proj::None; c.op = String::new(); }
         v.push(c);
@@ -409,5 +413,60 @@ pub fn cases(tier: &str, seed: u64) -> Vec<Case> {
             v.push(parse_case(&b, "mutated"));
         }
     }
+    // stack: the work per message is bounded in stack depth too. A parser that descends once per compression pointer
+    // or per label needs a frame for each of up to ~8000 hops; on a service thread (tokio workers, spawned threads with
+    // a small stack) that is a crash of the whole process, which no catch_unwind sees. The deep messages above and a
+    // sample of ordinary ones are parsed in a child process on a thread of STACK_PROBE_BYTES.
+    for _ in 0..40 { if let Ok(b) = g.packet(4).build_bytes_vec_compressed() { deep.push(b); } }
+    v.extend(stack_probe(&deep));
     v
+}
+
+
+/// the stack a parse may use: 64 KiB - about four times what the deepest legal message needs today in this (dev)
+/// profile, and well under what a recursive descent needs for a chain of a few thousand pointers
+pub const STACK_PROBE_BYTES: usize = 64 * 1024;
+
+/// child side: `vharness --stack-probe <file> <bytes>`: one message per line in hex, each parsed on a thread with the
+/// given stack; the index is printed before each parse so that the parent knows which message killed the process
+pub fn stack_probe_child(file: &str, bytes: usize) {
+    use std::io::Write;
+    let text = std::fs::read_to_string(file).unwrap_or_default();
+    for (i, line) in text.lines().enumerate() {
+        let b = match text::unhex(line.trim()) { Some(b) => b, None => continue };
+        println!("{}", i);
+        let _ = std::io::stdout().flush();
+        let h = std::thread::Builder::new().stack_size(bytes).spawn(move || { let _ = std::panic::catch_unwind(|| { let _ = Packet::parse(&b).map(|p| p.answers.len()); }); });
+        if let Ok(h) = h { let _ = h.join(); }
+    }
+    println!("done");
+}
+
+fn stack_probe(messages: &[Vec<u8>]) -> Vec<Case> {
+    let dir = std::env::temp_dir().join(format!("vharness-stack-{}", std::process::id()));
+    let _ = std::fs::create_dir_all(&dir);
+    let file = dir.join("messages.hex");
+    let body: String = messages.iter().map(|m| format!("{}\n", text::hex(m))).collect();
+    let mut out = vec![];
+    let mut c = Case::oracle_only().tag("stack-probe");
+    if std::fs::write(&file, body).is_ok() {
+        if let Ok(exe) = std::env::current_exe() {
+            match std::process::Command::new(exe).arg("--stack-probe").arg(&file).arg(STACK_PROBE_BYTES.to_string()).output() {
+                Ok(o) => {
+                    let text_out = String::from_utf8_lossy(&o.stdout).to_string();
+                    if !text_out.trim_end().ends_with("done") {
+                        let last = text_out.lines().filter_map(|l| l.trim().parse::<usize>().ok()).last().unwrap_or(0);
+                        let m = &messages[last.min(messages.len() - 1)];
+                        c = Case::new(format!("parse {}", text::hex(m)), "panic".to_string()).tag("stack-probe");
+                        c.proj = Proj::None;
+                        c = c.fail("parse-stack", format!("parsing this {}-byte message on a thread with a {} KiB stack kills the process ({})", m.len(), STACK_PROBE_BYTES / 1024, o.status));
+                    }
+                }
+                Err(e) => { eprintln!("stack probe not run: {}", e); }
+            }
+        }
+    }
+    let _ = std::fs::remove_dir_all(&dir);
+    out.push(c);
+    out
 }
